@@ -202,6 +202,20 @@ CLAIMED['C11'] = dict(
          'with generated files.',
     ref='4/C11', technique='free-term symbolic execution with symbolic fault vectors (CrossHair)')
 
+CLAIMED['C02'] = dict(
+    text='PARTIAL: grouping events by generating subpopulation (GMM clustering quality), the 10% '
+         'accuracy of the conversion and seed reproducibility are NOT decided (compiled iterative '
+         'numerics). Decided symbolically on get_transform_fxn + selection_std with the clusterer '
+         'a stub returning any relabelling of the true partition and the fit a free term: values '
+         'assigned in order of brightness (symbolic order), unknown or near-limit populations '
+         'excluded while the others keep their values, the fit receives exactly the true '
+         'population statistics, one label per event / one statistic per population / equal '
+         'lengths, result = to_mef bound to curves and channels, independence of event order and '
+         'label names.',
+    note='Undecided half first: clustering, numeric accuracy, seeds. Trusted: symnp, stats '
+         'models, CrossHair, z3. 3 populations x 2 events, 1-2 channels, linear selection scale.',
+    ref='4/C02', technique=TECH + '; clusterer and fit stubbed (free terms)')
+
 NA = {
     'C15': 'whole-program run through compiled third-party code and the file system (openpyxl/'
            'pandas xlsx I/O, matplotlib rendering): cannot be executed symbolically; stubbing it '
